@@ -56,6 +56,13 @@ class FnLower:
             elif k in CASTS and e.get('castKind') in ('NoOp', 'ConstructorConversion', 'UserDefinedConversion'): e = e['inner'][-1]
             else: return e
 
+    def capture_source(self, ini):
+        """the DeclRefExpr a lambda capture initialiser stands for (a by-copy capture of a class-type variable is a copy construction)"""
+        i0 = self.strip_casts(ini)
+        while i0.get('kind') in ('CXXConstructExpr', 'MaterializeTemporaryExpr', 'ExprWithCleanups') and len(i0.get('inner', [])) == 1:
+            i0 = self.strip_casts(i0['inner'][0])
+        return i0
+
     def strip_casts(self, e):
         while e.get('kind') in WRAPPERS + CASTS + ('MaterializeTemporaryExpr',) and e.get('inner'): e = e['inner'][-1]
         return e
@@ -122,7 +129,7 @@ class FnLower:
                 if len(flds) != len(inits): self.unsupported('lambda captures (%d fields, %d initialisers)' % (len(flds), len(inits)))
                 caps = {}
                 for fk, (f, ini) in enumerate(zip(flds, inits)):
-                    i0 = self.strip_casts(ini)
+                    i0 = self.capture_source(ini)
                     if i0.get('kind') != 'DeclRefExpr': self.unsupported('lambda init-capture')
                     caps[i0['referencedDecl']['id']] = (f.get('name') or ('_c%d' % fk), L.is_ref(f['type']))
                 self.caps = caps
@@ -922,6 +929,24 @@ class FnLower:
             if name == 'size': return '%dUL' % n, False
             if name == 'operator[]': return '(&(%s)->e[%s])' % (base, self.rv(args[0])), True
             self.unsupported('std::array::%s' % name)
+        if ot[0] == 'ptr' and not arrow and (name.startswith('operator') or name == 'base'):
+            # member operators of an iterator modelled as an element pointer
+            if name == 'base': return self.rv(obj), False
+            if name == 'operator*': return self.rv(obj), True
+            if name == 'operator->': return self.rv(obj), False
+            if name in ('operator++', 'operator--'):
+                x = self.lv(obj)
+                if not args: self.emit('%s%s;' % (name[8:], x)); return '&' + x, True
+                t = self.tmp(); self.emit('%s %s = %s; %s%s;' % (L.ctype_of(ot), t, x, x, name[8:])); return t, False
+            if name in ('operator+', 'operator-') and len(args) == 1:
+                a, b = self.operands([('rv', obj), ('rv', args[0])])
+                return '(%s %s %s)' % (a, name[8:], b), False
+            if name in ('operator+=', 'operator-=') and len(args) == 1:
+                x, b = self.operands([('lv', obj), ('rv', args[0])])
+                self.emit('%s %s %s;' % (x, name[8:], b)); return '&' + x, True
+            if name == 'operator[]' and len(args) == 1:
+                a, b = self.operands([('rv', obj), ('rv', args[0])])
+                return '(&%s[%s])' % (a, b), True
         if ot[0] == 'vec':
             base = self.addr(obj) if not arrow else self.rv(obj)
             if not SIMPLE_RE.match(base): x = self.tmp(); self.emit('%s * %s = %s;' % (L.ctype_of(ot), x, base)); base = x
@@ -1058,6 +1083,10 @@ class FnLower:
             if at[0] == 'stdarray':
                 base = self.addr(args[0])
                 return '(&(%s)->e[%d])' % (base, 0 if 'begin' in name else at[2]), False
+            if at[0] == 'vec':
+                base = self.addr(args[0])
+                if not SIMPLE_RE.match(base): x = self.tmp(); self.emit('%s * %s = %s;' % (L.ctype_of(at), x, base)); base = x
+                return ('(&(%s)->a[0])' % base if 'begin' in name else '(&(%s)->a[(%s)->n])' % (base, base)), False
             if at[0] == 'rec':
                 want = name.lstrip('c') if name.startswith('c') else name
                 ms = [m for m in self.idx.methods(at[1]) if m.get('name') == want and not [p for p in m.get('inner', []) if p.get('kind') == 'ParmVarDecl'] and self.idx.defn.get(m['id']) is not None]
@@ -1164,6 +1193,20 @@ class FnLower:
                 self.emit('  ++%s;' % it); self.emit('}')
                 self.loops_closed += 1
                 return it + '_out', False
+        if len(args) == 2 and name in ('operator+', 'operator-', 'operator<', 'operator<=', 'operator>', 'operator>=') and L.deref_t(args[0]['type'])[0] == 'ptr' and L.deref_t(args[1]['type'])[0] in ('ptr', 'builtin'):
+            # random-access iterator arithmetic / ordering on an iterator modelled as an element pointer
+            a, b = self.operands([('rv', args[0]), ('rv', args[1])])
+            return '(%s %s %s)' % (a, name[8:], b), False
+        if len(args) in (1, 2) and name in ('operator++', 'operator--') and L.deref_t(args[0]['type'])[0] == 'ptr':
+            x = self.lv(args[0])
+            if len(args) == 1: self.emit('%s%s;' % (name[8:], x)); return '&' + x, True
+            t = self.tmp(); self.emit('%s %s = %s; %s%s;' % (L.ctype_of(L.deref_t(args[0]['type'])), t, x, x, name[8:])); return t, False
+        if len(args) == 2 and name in ('operator+=', 'operator-=') and L.deref_t(args[0]['type'])[0] == 'ptr':
+            x, b = self.operands([('lv', args[0]), ('rv', args[1])])
+            self.emit('%s %s %s;' % (x, name[8:], b)); return '&' + x, True
+        if len(args) == 2 and name == 'operator[]' and L.deref_t(args[0]['type'])[0] == 'ptr':
+            a, b = self.operands([('rv', args[0]), ('rv', args[1])])
+            return '(&%s[%s])' % (a, b), True
         if name in ('operator!=', 'operator==') and len(args) == 2 and L.deref_t(args[0]['type'])[0] == 'ptr' and L.deref_t(args[1]['type'])[0] == 'ptr':
             a, b = self.operands([('rv', args[0]), ('rv', args[1])])
             return '(%s %s %s)' % (a, name[8:], b), False
@@ -1674,7 +1717,7 @@ class FnLower:
             for fk, (f, ini) in enumerate(zip(flds, inits)):
                 fn_ = f.get('name') or ('_c%d' % fk)
                 byref = L.is_ref(f['type'])
-                i0 = self.strip_casts(ini)
+                i0 = self.capture_source(ini)
                 if i0.get('kind') != 'DeclRefExpr': self.unsupported('lambda init-capture')
                 caps[i0['referencedDecl']['id']] = (fn_, byref)
                 self.emit('%s.%s = %s;' % (t, fn_, self.addr(i0) if byref else self.rv(ini)))
